@@ -51,6 +51,7 @@ type fileSpec struct {
 	Hdrs    []hdrSpec   `json:"hdrs"`
 	Batches []batchSpec `json:"batches"`
 	ViaText bool        `json:"viaText,omitempty"` // write + read back before flattening (parsed file)
+	Aug     *augSpec    `json:"aug,omitempty"`     // second family: file of the shared generator, batches split / duplicated
 }
 
 // ---------------------------------------------------------------- building the file
@@ -233,6 +234,13 @@ func buildFile(s fileSpec) (f *ach.File, err error) {
 			f, err = nil, fmt.Errorf("panic while building: %v", r)
 		}
 	}()
+	if s.Aug != nil {
+		f, err = buildAug(*s.Aug)
+		if err != nil {
+			return nil, err
+		}
+		return finishFile(f, s.ViaText)
+	}
 	f = baseFile()
 	for _, b := range s.Batches {
 		if b.Hdr < 0 || b.Hdr >= len(s.Hdrs) {
@@ -281,6 +289,10 @@ func buildFile(s fileSpec) (f *ach.File, err error) {
 			f.AddBatch(bt)
 		}
 	}
+	return finishFile(f, s.ViaText)
+}
+
+func finishFile(f *ach.File, viaText bool) (*ach.File, error) {
 	if err := f.Create(); err != nil {
 		return nil, fmt.Errorf("file create: %v", err)
 	}
@@ -292,7 +304,7 @@ func buildFile(s fileSpec) (f *ach.File, err error) {
 			return nil, fmt.Errorf("iat validate: %v", err)
 		}
 	}
-	if s.ViaText {
+	if viaText {
 		var buf bytes.Buffer
 		if err := ach.NewWriter(&buf).Write(f); err != nil {
 			return nil, fmt.Errorf("write: %v", err)
